@@ -149,7 +149,9 @@ func checks() map[string]*Check {
 	// directed choreographies (W2)
 	app := func(id string, rs ...RunSpec) { m[id].Runs = append(m[id].Runs, rs...) }
 	app("C01", RunSpec{Scen: "w2.takeover", Quick: 24, Thorough: 600}, RunSpec{Scen: "w2.figure8", Quick: 16, Thorough: 400}, RunSpec{Scen: "w2.staleinstall", Params: "snapshots=1,snapthr=6,pad=100", Quick: 24, Thorough: 600})
-	app("C01", RunSpec{Scen: "w2.exacthalf", Quick: 8, Thorough: 200})
+	app("C01", RunSpec{Scen: "w2.exacthalf", Quick: 8, Thorough: 200}, RunSpec{Scen: "w1", Params: "hold=1,crash=0,voters=5,steps=40", Quick: 8, Thorough: 400})
+	app("C04", RunSpec{Scen: "w1", Params: "hold=1,crash=0,voters=5,steps=40", Quick: 8, Thorough: 400})
+	app("C02", RunSpec{Scen: "w1", Params: "hold=1,crash=1,voters=3,steps=40", Quick: 8, Thorough: 400})
 	app("C02", RunSpec{Scen: "w2.votes", Quick: 32, Thorough: 800})
 	app("C03", RunSpec{Scen: "w1", Params: "crash=0,bounce=1,applyin=1500,voters=3,clients=6", Quick: 24, Thorough: 600}, RunSpec{Scen: "w1", Params: "crash=0,bounce=1,applyin=1500,voters=1", Quick: 8, Thorough: 200}, RunSpec{Scen: "w2.deposed", Quick: 24, Thorough: 600}, RunSpec{Scen: "w2.bounce", Quick: 16, Thorough: 400}, RunSpec{Scen: "w2.takeover", Quick: 16, Thorough: 400})
 	app("C04", RunSpec{Scen: "w2.exacthalf", Quick: 16, Thorough: 400}, RunSpec{Scen: "w2.acklose", Quick: 24, Thorough: 600})
